@@ -17,21 +17,30 @@ import (
 type rwSpy struct {
 	hdr http.Header
 	log []string
+	// limit >= 0: the underlying writer takes that many body bytes in all and then fails, reporting the bytes
+	// it did take together with the error (a connection that breaks in the middle of a write)
+	limit, taken int
+}
+
+func (s *rwSpy) take(b string) (int, error) {
+	if s.limit < 0 || s.taken+len(b) <= s.limit {
+		s.taken += len(b)
+		s.log = append(s.log, "B"+b)
+		return len(b), nil
+	}
+	n := s.limit - s.taken
+	s.taken = s.limit
+	s.log = append(s.log, "B"+b[:n])
+	return n, io.ErrClosedPipe
 }
 
 func (s *rwSpy) Header() http.Header { return s.hdr }
 func (s *rwSpy) WriteHeader(c int)   { s.log = append(s.log, fmt.Sprintf("H%d", c)) }
-func (s *rwSpy) Write(b []byte) (int, error) {
-	s.log = append(s.log, "B"+string(b))
-	return len(b), nil
-}
+func (s *rwSpy) Write(b []byte) (int, error) { return s.take(string(b)) }
 
 // WriteString makes the spy an io.StringWriter, as net/http's and httptest's writers are: a string written
 // through io.WriteString may reach it by this door, and is a body write like any other.
-func (s *rwSpy) WriteString(str string) (int, error) {
-	s.log = append(s.log, "B"+str)
-	return len(str), nil
-}
+func (s *rwSpy) WriteString(str string) (int, error) { return s.take(str) }
 
 type rwSpyFlusher struct{ rwSpy }
 
@@ -47,6 +56,7 @@ type rwModel struct {
 	sent          []string
 	hookLog       []string
 	hdrSet        bool
+	limit, taken  int
 }
 
 func (m *rwModel) writeHeader(s int) {
@@ -69,6 +79,10 @@ func (m *rwModel) write(b string) int {
 	if m.head {
 		return 0
 	}
+	if m.limit >= 0 && m.taken+len(b) > m.limit {
+		b = b[:m.limit-m.taken]
+	}
+	m.taken += len(b)
 	m.sent = append(m.sent, "B"+b)
 	m.size += len(b)
 	return len(b)
@@ -134,11 +148,18 @@ func c13OpName(op int) string {
 func c13Exec(method string, flusher bool, ops []int) (key string, bad string) {
 	var spy *rwSpy
 	var under http.ResponseWriter
+	limit := -1
+	if i := strings.Index(method, "/underlying-takes-"); i >= 0 {
+		// e.g. "GET/underlying-takes-3-bytes": the environment answers the later writes with a short count
+		// and an error
+		fmt.Sscanf(method[i:], "/underlying-takes-%d-bytes", &limit)
+		method = strings.Replace(method, fmt.Sprintf("/underlying-takes-%d-bytes", limit), "", 1)
+	}
 	if flusher {
-		f := &rwSpyFlusher{rwSpy{hdr: http.Header{}}}
+		f := &rwSpyFlusher{rwSpy{hdr: http.Header{}, limit: limit}}
 		spy, under = &f.rwSpy, f
 	} else {
-		spy = &rwSpy{hdr: http.Header{}}
+		spy = &rwSpy{hdr: http.Header{}, limit: limit}
 		under = spy
 	}
 	if strings.HasSuffix(method, "/over-GET-writer") {
@@ -148,7 +169,7 @@ func c13Exec(method string, flusher bool, ops []int) (key string, bad string) {
 		under = flamego.NewResponseWriter("GET", under)
 	}
 	w := flamego.NewResponseWriter(method, under)
-	m := &rwModel{head: method == http.MethodHead, flusher: flusher}
+	m := &rwModel{head: method == http.MethodHead, flusher: flusher, limit: limit}
 	var hookLog []string
 	var mkHook func(id int) flamego.BeforeFunc
 	mkHook = func(id int) flamego.BeforeFunc {
@@ -347,7 +368,8 @@ func c13Run(r *core.Run) {
 		nestedDepth = 7
 	}
 	r.Bounds["nested_writers"] = fmt.Sprintf("HEAD and GET writers over a GET flamego writer over the spy, depth %d", nestedDepth)
-	for _, method := range []string{"HEAD/over-GET-writer", "GET/over-GET-writer"} {
+	r.Bounds["failing_underlying_writer"] = "GET and HEAD writers over a spy that takes 1 or 3 body bytes in all and then answers with a short count and an error, same depth as the nested writers"
+	for _, method := range []string{"HEAD/over-GET-writer", "GET/over-GET-writer", "GET/underlying-takes-3-bytes", "GET/underlying-takes-1-bytes", "HEAD/underlying-takes-1-bytes", "GET/underlying-takes-3-bytes/over-GET-writer"} {
 		for _, fl := range []bool{false, true} {
 			method, fl := method, fl
 			step := func(hist []int, l *core.Local) (string, bool) {
